@@ -538,7 +538,7 @@ func (W) Exec(p *world.Plan, env *world.Env) {
 					}
 					x.scall(op)
 				}
-				env.Res.Ops++
+				env.Op()
 			}
 		}
 		res := simcore.Run(p.PhaseConfig(phase), []func(){task})
@@ -757,7 +757,7 @@ func (W) Exec(p *world.Plan, env *world.Env) {
 				x.fail("seq/backwards", "after the concurrent phase position %d was served although position %d had already been returned (n=%d)", cp[1], lo, n)
 			}
 			*cur = -1 - cp[1]
-			env.Res.Ops++
+			env.Op()
 		}
 	}
 	res = simcore.Run(p.PhaseConfig(phase), []func(){task})
